@@ -344,6 +344,9 @@ def run(ctx) -> str:
     from . import c08
 
     ctx.guarded("E9", lambda: c08.rule_d7(ctx, "E9"))
+    from ..generic import check_optional_path_truthiness
+
+    ctx.guarded("E11", lambda: ctx.inventory.__setitem__("find_node_calls", check_optional_path_truthiness(ctx, "E11-root-path-falsy", ["src/isla/language.py", "src/isla/evaluator.py"], min_sources=5)))
     ctx.assume("ThreeValuedTruth.all/any/not_ implement Kleene's strong connectives (three_valued_truth.py)")
     ctx.assume("structural predicates and SMT atoms themselves are decided by C04 / C05")
     return EXPLANATION
